@@ -15,6 +15,7 @@ import (
 	"go/constant"
 	"go/token"
 	"go/types"
+	"strings"
 
 	"golang.org/x/tools/go/packages"
 )
@@ -488,6 +489,11 @@ func c19CheckFunc(ctx *Ctx, r *Report, o *omapInfo, fd *ast.FuncDecl, obj *types
 			r.Check(ok && onRecv(e.lhs), "omap/permute", name, call.Pos(),
 				"order is only permuted in place by "+fnNameOr(fn)+": the key set and duplicate-freedom are unchanged",
 				"order handed to "+fnNameOr(fn)+", which is not a known in-place permutation")
+			// the reference map sorts by the caller's order and keeps first-insertion order among keys that compare equal (the
+			// method's own documentation says so): the permutation must be a stable sort
+			stable := fn != nil && (funcIs(fn, "sort", "SliceStable") || funcIs(fn, "slices", "SortStableFunc") || funcIs(fn, "sort", "Stable"))
+			r.Check(stable, "omap/permute", name+" stable", call.Pos(), "keys that compare equal keep their first-insertion order (stable sort)",
+				"order is sorted with "+fnNameOr(fn)+", which is not stable: keys the caller's order does not distinguish lose their first-insertion order (visible from 13 keys on: shorter slices are insertion-sorted)")
 		}
 	case count("recAssign") == total:
 		// lazy init: records = make(map) under `records == nil`
@@ -671,6 +677,36 @@ func c19CheckFunc(ctx *Ctx, r *Report, o *omapInfo, fd *ast.FuncDecl, obj *types
 				return true
 			})
 			r.Check(walks, "omap/observe-order", name+" encodes via order", fd.Pos(), "JSON members are emitted in order", "JSON encoding does not walk the order slice")
+			// keys and values reach the output through the JSON encoder only: the buffer otherwise receives constant punctuation
+			raw := ""
+			ast.Inspect(fd.Body, func(n ast.Node) bool {
+				c, ok := n.(*ast.CallExpr)
+				if !ok {
+					return true
+				}
+				sel, ok := c.Fun.(*ast.SelectorExpr)
+				if !ok {
+					return true
+				}
+				switch sel.Sel.Name {
+				case "WriteByte", "WriteString", "Write", "WriteRune":
+				default:
+					return true
+				}
+				if t := info.TypeOf(sel.X); t == nil || !strings.Contains(t.String(), "bytes.Buffer") {
+					return true
+				}
+				for _, a := range c.Args {
+					if tv, ok := info.Types[a]; !ok || tv.Value == nil {
+						if raw == "" {
+							raw = exprString(c)
+						}
+					}
+				}
+				return true
+			})
+			r.Check(raw == "", "omap/json-encoder-only", name+" writes data through the encoder", fd.Pos(), "the buffer only receives constant punctuation besides what json.Encoder writes",
+				"MarshalJSON writes "+raw+" into the output itself: text that did not go through the JSON encoder is not escaped as JSON (control characters, invalid UTF-8) — the document is invalid and json.Marshal of the map fails")
 		}
 	}
 
